@@ -1,6 +1,6 @@
 (* C19 — Schedule arithmetic is well-behaved for all inputs.
    This file contains statements only; every proof is `exact <lemma>`. *)
-From Repid Require Import Base Sched SchedProofs.
+From Repid Require Import Base Sched SchedProofs GenSched GenSchedProofs.
 
 (* back-off stays in [min_backoff, max_backoff] for every retry number *)
 Theorem C19_backoff_range : forall minb maxb mult maxexp n,
@@ -52,6 +52,25 @@ Theorem C19_overdue_monotone : forall ts ttl now now',
   now <= now' -> overdue ts ttl now = true -> overdue ts ttl now' = true.
 Proof. exact overdue_monotone. Qed.
 
+(* ---- the source IS the model: the definitions generated from /repo's current source by harness/translate.py (GenSched.v,
+   regenerated on every run) are equal to the hand-written ones every theorem above is about ---- *)
+Theorem C19_source_is_model_is_overdue : forall p now, gen_is_overdue p now = overdue (p_ts p) (p_ttl p) now.
+Proof. exact gen_is_overdue_eq. Qed.
+Theorem C19_source_is_model_compute_next : forall p now, gen_compute_next p now = compute_next p now.
+Proof. exact gen_compute_next_eq. Qed.
+Theorem C19_source_is_model_prepare_reschedule : forall p now, gen_prepare_reschedule p now = prepare_reschedule p now.
+Proof. exact gen_prepare_reschedule_eq. Qed.
+Theorem C19_source_is_model_prepare_retry : forall p now back, gen_prepare_retry p now back = prepare_retry p now back.
+Proof. exact gen_prepare_retry_eq. Qed.
+Theorem C19_source_is_model_backoff : forall a b m e n, gen_backoff_us a b m e n = backoff_us a b m e n.
+Proof. exact gen_backoff_eq. Qed.
+Theorem C19_source_is_model_wait_until_mem : forall p now, gen_wait_until_mem p now = wait_until p now.
+Proof. exact gen_wait_until_mem_eq. Qed.
+Theorem C19_source_is_model_wait_until_rabbit : forall p now, gen_wait_until_rabbit p now = wait_until p now.
+Proof. exact gen_wait_until_rabbit_eq. Qed.
+Theorem C19_source_is_model_wait_timestamp_redis : forall p now, gen_wait_timestamp_redis p now = wait_ts_s p now.
+Proof. exact gen_wait_timestamp_redis_eq. Qed.
+
 Print Assumptions C19_backoff_range.
 Print Assumptions C19_backoff_mono.
 Print Assumptions C19_backoff_representable.
@@ -62,3 +81,11 @@ Print Assumptions C19_next_deferred.
 Print Assumptions C19_next_periodic.
 Print Assumptions C19_overdue_def.
 Print Assumptions C19_overdue_monotone.
+Print Assumptions C19_source_is_model_is_overdue.
+Print Assumptions C19_source_is_model_compute_next.
+Print Assumptions C19_source_is_model_prepare_reschedule.
+Print Assumptions C19_source_is_model_prepare_retry.
+Print Assumptions C19_source_is_model_backoff.
+Print Assumptions C19_source_is_model_wait_until_mem.
+Print Assumptions C19_source_is_model_wait_until_rabbit.
+Print Assumptions C19_source_is_model_wait_timestamp_redis.
